@@ -2,6 +2,7 @@ package props
 
 import (
 	"fmt"
+	"os"
 	"testing"
 
 	"pgregory.net/rapid"
@@ -17,6 +18,7 @@ type CycleScript struct {
 	Cfg   SessCfg `json:"cfg"`
 	Cycle []SOp   `json:"cycle"`
 	N     int     `json:"n"`
+	NoPro bool    `json:"nopro,omitempty"` // no exchange of texts before the cycles start (the ratchet starts in its initial phase)
 }
 
 type c19run struct {
@@ -176,7 +178,9 @@ func runC19(sc *CycleScript) *sim.Outcome {
 		return o
 	}
 	// both have said something: there is a "most recent message" on either side
-	s.Exec(SOp{K: "pp", W: 0, I: 0, L: 20})
+	if !sc.NoPro {
+		s.Exec(SOp{K: "pp", W: 0, I: 0, L: 20})
+	}
 	n := sc.N
 	if n < 2 {
 		n = 2
@@ -206,6 +210,9 @@ func runC19(sc *CycleScript) *sim.Outcome {
 			size[i][p] = sim.Walk(s.W.P[p].C).Size
 		}
 		out[i] = r.maxOut
+		if os.Getenv("VERIF_DEBUG") != "" && i%6 == 0 {
+			fmt.Printf("DBG cycle %d sizes %v maxout %d\n", i, size[i], out[i])
+		}
 	}
 	maxUpTo := func(p, k int) int {
 		m := 0
@@ -263,7 +270,7 @@ func TestProp_C19_Cycles(t *testing.T) {
 		maxN = 32
 	}
 	rapid.Check(t, func(rt *rapid.T) {
-		sc := &CycleScript{Cfg: genSessCfg(rt), N: rapid.IntRange(4, maxN).Draw(rt, "n")}
+		sc := &CycleScript{Cfg: genSessCfg(rt), N: rapid.IntRange(4, maxN).Draw(rt, "n"), NoPro: rapid.Bool().Draw(rt, "nopro")}
 		k := rapid.IntRange(1, 4).Draw(rt, "len")
 		for i := 0; i < k; i++ {
 			sc.Cycle = append(sc.Cycle, SOp{K: rapid.SampledFrom(kinds).Draw(rt, "k"), W: rapid.IntRange(0, 1).Draw(rt, "w"), I: rapid.IntRange(0, 3).Draw(rt, "i"),
@@ -328,6 +335,10 @@ func TestProp_C19_Patterns(t *testing.T) {
 				continue
 			}
 			sim.Judge(t, "C19patterns", &CycleScript{Cfg: SessCfg{V: v, SeedA: 1900, SeedB: 2001, KeyA: 0, KeyB: 3}, Cycle: p, N: n})
+			if p[0].K == "cross" || p[0].K == "burst" {
+				// the same from the ratchet's initial phase (which key rotates on which message depends on what came before)
+				sim.Judge(t, "C19patterns", &CycleScript{Cfg: SessCfg{V: v, SeedA: 1900, SeedB: 2001, KeyA: 0, KeyB: 3, Starter: 1}, Cycle: p, N: n, NoPro: true})
+			}
 		}
 	}
 	sim.MarkCompleted("C19patterns", true)
